@@ -1,6 +1,7 @@
 """C13 schedules part: two writers / two readers on one AdbTransportAdapter under the controlled scheduler."""
 import struct
 import threading
+import time
 
 from vf.harness import c13
 from vf.sched import explore, runtime
@@ -9,12 +10,17 @@ from vf.sched import explore, runtime
 class STransport(object):
   """Fake transport whose read/write are scheduling points; logs chunks with the writing thread."""
 
-  def __init__(self, reads):
+  def __init__(self, reads, slow_first_write_of=None):
     self.chunks = []
     self.reads = list(reads)
+    self.slow = slow_first_write_of
 
   def write(self, data, timeout_ms=None):
     runtime.yield_point('transport.write')
+    if self.slow == threading.current_thread().name:
+      # this writer's first transfer (a header) takes longer than the writer's whole timeout
+      self.slow = None
+      time.sleep(0.3)
     self.chunks.append((threading.current_thread().name, c13.s2b(data)))
     runtime.yield_point('transport.write.done')
 
@@ -44,15 +50,17 @@ def scenario(kind):
   am, ue, timeouts = c13.mods()
 
   def fn(sched):
-    if kind == 'writers':
-      t = STransport([])
+    if kind in ('writers', 'writers_timeout'):
+      t = STransport([], slow_first_write_of='w1' if kind == 'writers_timeout' else None)
       ad = am.AdbTransportAdapter(t)
       errs = []
 
       def writer(name):
         for cmd, a0, a1, data in W_MSGS[name]:
           try:
-            ad.write_message(am.AdbMessage(cmd, a0, a1, data), timeouts.PolledTimeout(None))
+            # 'writers_timeout': w1's timeout (0.2 s) expires while its first header is being transferred
+            ad.write_message(am.AdbMessage(cmd, a0, a1, data),
+                             timeouts.PolledTimeout(0.2 if kind == 'writers_timeout' and name == 'w1' else None))
           except Exception as e:  # pylint: disable=broad-except
             errs.append((name, repr(e)))
 
@@ -111,7 +119,7 @@ def check(kind):
     if ex.failure is not None or not isinstance(v, dict):
       out.append(('schedules:%s:failure' % kind, 'execution failed: %s / %s' % (ex.failure, v), rep))
       return out
-    if kind == 'writers':
+    if kind in ('writers', 'writers_timeout'):
       chunks = [(n, bytes.fromhex(c)) for n, c in v['chunks']]
       if v['errs']:
         out.append(('schedules:writers:error', 'a writer raised %r' % (v['errs'],), rep))
@@ -150,7 +158,7 @@ def check(kind):
 
 
 def run_into(rep, tier):
-  for kind in ('writers', 'readers', 'readers_timeout'):
+  for kind in ('writers', 'writers_timeout', 'readers', 'readers_timeout'):
     bound = 2 if tier == 'quick' else 4
     r = explore.explore('C13:' + kind, lambda ch, kind=kind: execute(kind, ch), check(kind), bound, cap=400000)
     rep.merge_violations(r['violations'])
